@@ -391,3 +391,121 @@ Proof.
   - eapply round_super_eq; eassumption.
   - eapply round_super45_eq; eassumption.
 Qed.
+
+(* ---------- the trap-free domain is large: totality on explicit ranges ---------- *)
+Ltac tot :=
+  repeat (unfold ar32; rewrite chk32_id by (unfold i32 in *; rewrite ?sk_floor_spec, ?PADs; lia); cbn [obind]).
+
+Lemma round_grid_modes_total mode thr ph per d : 0 <= mode <= 4 ->
+  -2147483520 <= d <= 2147483520 -> exists v, sk_rs_round true mode thr ph per d = Some v.
+Proof.
+  intros Hm Hd.
+  assert (Hc : mode = 0 \/ mode = 1 \/ mode = 2 \/ mode = 3 \/ mode = 4) by lia.
+  destruct Hc as [-> | [-> | [-> | [-> | ->]]]];
+    unfold sk_rs_round, sk_round, sk_ceil, sk_round_pad, sk_floor_pad; change (Z.quot 32 2) with 16;
+    destruct (0 <=? d) eqn:Ed; tot; eauto.
+Qed.
+
+Lemma land_s30 x y : -1073741824 <= x < 1073741824 -> -1073741824 <= y < 1073741824 ->
+  -1073741824 <= Z.land x y < 1073741824.
+Proof.
+  intros Hx Hy.
+  assert (Hs : forall z, -1073741824 <= z < 1073741824 <-> (Z.shiftr z 30 = 0 \/ Z.shiftr z 30 = -1)).
+  { intros z. rewrite Z.shiftr_div_pow2 by lia. change (2 ^ 30) with 1073741824. lia. }
+  apply Hs. rewrite Z.shiftr_land.
+  apply Hs in Hx. apply Hs in Hy.
+  destruct Hx as [-> | ->]; destruct Hy as [-> | ->]; cbn; auto.
+Qed.
+
+Definition small (z : Z) : Prop := -268435456 <= z <= 268435456.   (* |z| <= 2^28 *)
+
+Lemma round_super_total thr ph per d : small thr -> small ph -> small per -> small d ->
+  exists v, sk_rs_round true 6 thr ph per d = Some v.
+Proof.
+  unfold small. intros Ht Hp Hq Hd. unfold sk_rs_round.
+  destruct (0 <=? d) eqn:Ed.
+  - pose proof (land_s30 (d + (thr - ph)) (- per) ltac:(lia) ltac:(lia)) as HL.
+    tot. set (L := Z.land _ _) in *. clearbody L. tot. eauto.
+  - pose proof (land_s30 (thr - ph - d) (- per) ltac:(lia) ltac:(lia)) as HL.
+    tot. set (L := Z.land _ _) in *. clearbody L. tot.
+    destruct (0 <? _); [tot|]; eauto.
+Qed.
+
+Lemma quot_mul_bound s p : p <> 0 -> Z.abs (Z.quot s p * p) <= Z.abs s /\ Z.abs (Z.quot s p) <= Z.abs s.
+Proof.
+  intros Hp. destruct (Z_le_gt_dec 0 s) as [Hs | Hs].
+  - pose proof (Z.mul_quot_le s p Hs Hp) as H.
+    assert (Hq : Z.abs (Z.quot s p) <= Z.abs (p * Z.quot s p)) by (rewrite Z.abs_mul; nia).
+    rewrite (Z.mul_comm (Z.quot s p) p). lia.
+  - pose proof (Z.mul_quot_ge s p ltac:(lia) Hp) as H.
+    assert (Hq : Z.abs (Z.quot s p) <= Z.abs (p * Z.quot s p)) by (rewrite Z.abs_mul; nia).
+    rewrite (Z.mul_comm (Z.quot s p) p). lia.
+Qed.
+
+Lemma round_super45_total thr ph per d : small thr -> small ph -> small per -> small d -> per <> 0 ->
+  exists v, sk_rs_round true 7 thr ph per d = Some v.
+Proof.
+  unfold small. intros Ht Hp Hq Hd Hnz. unfold sk_rs_round, div32.
+  assert (Ez : (per =? 0) = false) by lia. rewrite Ez.
+  destruct (0 <=? d) eqn:Ed.
+  - pose proof (quot_mul_bound (d + (thr - ph)) per Hnz) as [HM HQ].
+    tot. set (Q := Z.quot _ _) in *. clearbody Q. tot.
+    set (M := Q * per) in *. clearbody M. tot. eauto.
+  - pose proof (quot_mul_bound (thr - ph - d) per Hnz) as [HM HQ].
+    tot. set (Q := Z.quot _ _) in *. clearbody Q. tot.
+    set (M := Q * per) in *. clearbody M. tot.
+    destruct (0 <? _); [tot|]; eauto.
+Qed.
+
+(* ---------- FT_RoundFix / FT_CeilFix / FT_FloorFix and FT_PIX_ROUND vs font-types ---------- *)
+Lemma ftfloorfix_eq a : fx_floor 16 a = ft_floorfix a.
+Proof. reflexivity. Qed.
+
+Lemma pix_round_eq x : i32 x -> i32 (x + 32) -> sk_f26dot6_round x = FT_PIX_ROUND x.
+Proof.
+  intros Hx Hy. unfold sk_f26dot6_round, fx_round, FT_PIX_ROUND, FT_PIX_FLOOR.
+  change (2 ^ (6 - 1)) with 32. rewrite (wrap_s32_id _ Hy). reflexivity.
+Qed.
+
+(* Fixed::round (add 0x8000, mask) is FT_RoundFix except on negative exact ties *)
+Lemma ftroundfix_eq a : i32 a -> i32 (a + 32768) -> (0 <= a \/ a mod 65536 <> 32768) ->
+  fx_round 32 16 a = ft_roundfix a.
+Proof.
+  intros Ha Hb Hc. unfold fx_round, ft_roundfix. change (2 ^ (16 - 1)) with 32768.
+  rewrite (wrap_s32_id _ Hb). rewrite lnot65535, !land_int_mask by lia.
+  unfold ADD_LONG, long, ulong, wrap_s, wrap_u. pows. unfold i32 in *.
+  destruct (a <? 0) eqn:E; lia.
+Qed.
+
+(* ---------- closed forms: on the trap-free ranges skrifa's value IS FreeType's value ---------- *)
+Lemma small_i32 z : small z -> i32 z. Proof. unfold small, i32. lia. Qed.
+
+Lemma round_grid_modes_agree mode thr ph per d : 0 <= mode <= 4 -> i32 thr -> i32 ph -> i32 per ->
+  -2147483520 <= d <= 2147483520 ->
+  sk_rs_round true mode thr ph per d = Some (ft_rs_round mode thr ph per d).
+Proof.
+  intros Hm Ht Hp Hq Hd. destruct (round_grid_modes_total mode thr ph per d Hm Hd) as [v Hv].
+  rewrite Hv. f_equal. apply (round_state_eq mode thr ph per d v); try assumption; try lia.
+  unfold i32. lia.
+Qed.
+
+Lemma round_super_agree thr ph per d : small thr -> small ph -> small per -> small d ->
+  sk_rs_round true 6 thr ph per d = Some (ft_rs_round 6 thr ph per d).
+Proof.
+  intros Ht Hp Hq Hd. destruct (round_super_total thr ph per d Ht Hp Hq Hd) as [v Hv].
+  rewrite Hv. f_equal. apply round_super_eq; auto using small_i32.
+Qed.
+
+Lemma round_super45_agree thr ph per d : small thr -> small ph -> small per -> small d -> per <> 0 ->
+  sk_rs_round true 7 thr ph per d = Some (ft_rs_round 7 thr ph per d).
+Proof.
+  intros Ht Hp Hq Hd Hz. destruct (round_super45_total thr ph per d Ht Hp Hq Hd Hz) as [v Hv].
+  rewrite Hv. f_equal. apply round_super45_eq; auto using small_i32.
+Qed.
+
+(* ---------- the overflow-checks reading refines the release reading ---------- *)
+Lemma ar32_refines z v : ar32 true z = Some v -> ar32 false z = Some v.
+Proof.
+  intros H. apply chk32_some in H. destruct H as [-> Hi]. unfold ar32. f_equal. apply wrap_s32_id. exact Hi.
+Qed.
+
